@@ -3,8 +3,9 @@ import itertools, random
 from vlib import core, corr
 
 AREA = "C12"
-MODULES = ["TinsModel.Props.C12"]
-AUDIT = "Audit/C12.lean"
+SMALL_BUFFER_EDGE = []          # filled by run() from the generated table
+MODULES = ["TinsModel.Props.C12", "TinsModel.Props.Limits.C12"]   # + the constants / limits tied to the source (translator/gen_limits.py)
+AUDIT = ["Audit/C12.lean", "Audit/LimitsC12.lean"]
 LEVEL = "proof"
 HARNESS = "c12_ownership"
 HARNESS_EXTRA = ["-fno-access-control"]      # PtrPacket's constructor and two members without public accessors
@@ -240,7 +241,8 @@ def gen_case(rng, table, nops, classes=None):
             kk = rng.choice(["onew", "onew", "ocopy", "omove", "oassign", "oassign", "omassign", "odel"])
             i, j = rng.randrange(NSLOTS), rng.randrange(NSLOTS)
             if kk == "onew":
-                ln = rng.choice([0, 1, 7, 8, 9, 10, 16, 40, rng.randrange(0, 70)])
+                # payload lengths around PDUOption::small_buffer_size as the source currently has it (Gen/Limits)
+                ln = rng.choice([0, 1, 7, 8, 9, 10, 16, 40, rng.randrange(0, 70)] + SMALL_BUFFER_EDGE)
                 ops.append(f"onew {i} {rng.randrange(256)} {ln} {rng.randrange(256)}")
             elif kk == "odel":
                 ops.append(f"odel {i}")
@@ -319,6 +321,10 @@ def sig_of(kind, detail, case):
 
 
 def run(chk):
+    from translator import gen_limits
+    gen_limits.main([])          # Gen/Limits.lean: constants and limits read from the current source
+    sb = gen_limits.values().get("optionSmallBuffer")
+    SMALL_BUFFER_EDGE[:] = [sb - 1, sb, sb + 1] if sb is not None and 1 <= sb < 4096 else []
     problems = chk.prove(MODULES, AUDIT, want_leanchecker=(chk.tier == "thorough"))
     exe, err = core.build_harness(HARNESS, extra=HARNESS_EXTRA)
     if exe is None:
